@@ -158,7 +158,11 @@ impl Engine for E6 {
         "one case = programs of 2..4 tasks over {set(v_i), get, is_set} on a fresh holder plus scheduler strategy and seed; distinct = distinct (case hash, hash of the schedule actually taken); non-trivial = at least 2 API calls of which at least one set and one read"
     }
 
-    fn required_probes(_focus: &str) -> &'static [&'static str] {
+    fn required_probes(focus: &str) -> &'static [&'static str] {
+        if focus == "C20" {
+            // the no-panic check does not depend on reaching the race windows
+            return &[];
+        }
         &["two_racing_setters", "get_during_loading", "get_none_then_some", "hb_acquire_join", "loser_returned_before_winner_completed"]
     }
 
